@@ -4,6 +4,8 @@ import (
 	"encoding/json"
 	"fmt"
 	"os"
+	"os/signal"
+	"syscall"
 )
 
 func cmdScen(args []string) int {
@@ -21,6 +23,11 @@ func cmdScen(args []string) int {
 		return 2
 	}
 	out := &scenOut{Scenario: name}
+	// a library change that leaves EVERY goroutine of a scenario blocked must end up as a finding of
+	// that scenario's watchdog, not as the runtime's "all goroutines are asleep" (which ends the
+	// process): a registered signal channel keeps the runtime's deadlock detector off
+	keepAlive := make(chan os.Signal, 1)
+	signal.Notify(keepAlive, syscall.SIGUSR2)
 	fn(out, newRng(seed), thorough)
 	b, _ := json.MarshalIndent(out, "", " ")
 	if err := os.WriteFile(args[3], b, 0o644); err != nil {
